@@ -137,8 +137,18 @@ PrecRounding ==
                  \* and a tie went to the even neighbour
                  /\ (DEq(DShl(AbsDiff(c, D), 1), PosD(NOne, DLead(D) - (q - 1)))
                        => ~NIsOdd(DAlign(DAbs(c), DLead(D) - (q - 1))[2]))
-Satisfiable == IsVal => \A fl \in BOOLEAN : M2FFails(F, D, R, fl) = {}
-CodePasses == IsVal => \A fl \in BOOLEAN : M2FFails(F, D, CodeM2F(F, D, fl), fl) = {}
+\* the ideal conversion: RN, and with an explicit flush request a signed zero where RN is subnormal
+IdealM2F(fl) == IF fl /\ InSubRange(F, D) /\ ~IsNormal(F, R) THEN SignedZero(F, D[1][1]) ELSE R
+Satisfiable == IsVal => \A fl \in BOOLEAN : M2FFails(F, D, IdealM2F(fl), fl) = {}
+\* the package's algorithm passes, except for its known behaviour at the flush boundary (flushing is decided
+\* after a p-bit rounding with unbounded exponent, not on the lattice)
+CodePasses == IsVal => /\ M2FFails(F, D, CodeM2F(F, D, FALSE), FALSE) = {}
+                       /\ M2FFails(F, D, CodeM2F(F, D, TRUE), TRUE) \subseteq {"flush_boundary_pbit"}
+\* negative controls: ignoring an explicit flush request, and flushing before rounding, are rejected somewhere
+FlushWitness ==
+  (IsVal /\ InSubRange(F, D)) =>
+    /\ (M2FFails(F, D, R, TRUE) # {} => PrintT(<<"W", "flush_ignored", y, x>>))
+    /\ (IsNormal(F, R) /\ M2FFails(F, D, SignedZero(F, D[1][1]), TRUE) = {"normal_rn"} => PrintT(<<"W", "flush_before_rounding", y, x>>))
 \* statistics only: canonical values where the two-step algorithm is not RN
 DoubleRounded ==
   (IsVal /\ y % 2 = 1 /\ z = 0 /\ M2FNotRN(F, D, CodeM2F(F, D, FALSE))) => PrintT(<<"DR", y, x>>)
@@ -150,10 +160,13 @@ IsPair == ph = 1 /\ kind = "pair" /\ IsFinite(F, A) /\ IsFinite(F, Bb)
 Fns == IF y = 0 THEN Unary \cup Binary ELSE Binary      \* unary functions once per a
 Ideal(fn) == LET d == BExact(F, fn, A, Bb)
              IN  IF DIsZero(d) THEN PosZero(F) ELSE RN(F, d)
+\* with an explicit flush request: a signed zero where RN is subnormal
+IdealFl(fn, fl) == LET d == BExact(F, fn, A, Bb)
+                   IN  IF fl = "true" /\ InSubRange(F, d) /\ ~IsNormal(F, RN(F, d)) THEN SignedZero(F, d[1][1]) ELSE Ideal(fn)
 TwoStep(fn, xtra, fl) == CodeM2F(F, RNPrec(F.p + xtra, BExact(F, fn, A, Bb)), fl)
 
 IdealPasses ==
-  IsPair => \A fn \in Fns, fl \in Flushes : BEFails(F, fn, A, Bb, fl, 2, Ideal(fn), TRUE) = {}
+  IsPair => \A fn \in Fns, fl \in Flushes : BEFails(F, fn, A, Bb, fl, 2, IdealFl(fn, fl), TRUE) = {}
 TwoStepClassified ==
   IsPair => \A fn \in Fns :
      /\ \A fl \in {"unspec", "false"} : BEFails(F, fn, A, Bb, fl, 0, TwoStep(fn, 0, FALSE), TRUE) = {}
@@ -163,9 +176,10 @@ TwoStepClassified ==
      \* a backend that flushes although flushing was not requested / was refused
      /\ \A fl \in {"unspec", "false"} :
            BEFails(F, fn, A, Bb, fl, 0, TwoStep(fn, 0, TRUE), TRUE) \subseteq {"backend_subnormal_flushed"}
-     \* an explicit request makes flushing (and not flushing) acceptable
-     /\ BEFails(F, fn, A, Bb, "true", 0, TwoStep(fn, 0, TRUE), TRUE) = {}
-     /\ BEFails(F, fn, A, Bb, "true", 0, TwoStep(fn, 0, FALSE), TRUE) = {}
+     \* an explicit request: the package's flushing passes (up to its known boundary behaviour); ignoring the
+     \* request is accepted only where nothing is demanded (a subnormal input) or nothing is flushed
+     /\ BEFails(F, fn, A, Bb, "true", 0, TwoStep(fn, 0, TRUE), TRUE) \subseteq {"backend_flush_boundary_pbit"}
+     /\ BEFails(F, fn, A, Bb, "true", 0, TwoStep(fn, 0, FALSE), TRUE) \subseteq {"backend_flush_not_honoured"}
 Witnesses ==
   IsPair =>
     /\ (BEFails(F, "add", A, Bb, "false", 1, TwoStep("add", 1, FALSE), TRUE) # {} => PrintT(<<"W", "dr_add", x, y>>))
